@@ -196,7 +196,18 @@ class Types:
         return str(tid)
 
     def id_of(self, s):
-        return self.by_str[s]
+        r = self.by_str.get(s)
+        if r is None:
+            alias = {'uint8': 'byte', 'byte': 'uint8', 'int32': 'rune', 'rune': 'int32'}.get(s)
+            r = self.by_str.get(alias) if alias else None
+            if r is None:
+                if s in self.INTW or s in ('bool', 'string', 'float32', 'float64'):
+                    r = len(self.d)
+                    self.d.append({'id': r, 'str': s, 'kind': 'basic', 'name': s})
+                    self.by_str[s] = r
+                else:
+                    raise KeyError(s)
+        return r
 
     def zero(self, tid):
         u = self.under(tid)
@@ -291,6 +302,7 @@ class Interp:
         self.instr_budget = 5_000_000
         self.max_alloc = 1 << 20
         self.path_instr0 = 0
+        self.memo = {}
         self.call_hooks = {}   # fn name -> callable(interp, fn, args) -> (handled, result)
         self.store_hook = None
         self.alloc_log = None
@@ -538,6 +550,22 @@ class Interp:
         m = self.models.get(fn.name)
         if m is not None:
             return m(self, args)
+        if '.vfMemo' in fn.name and all(isinstance(a, (bytes, int, bool)) for a in args):
+            # harness functions named vfMemo*: deterministic, concrete-argument set-up work (e.g. compiling a
+            # template source) is executed once per job and its result shared by all paths; only used when the
+            # call neither forked nor consumed symbolic input
+            key = (fn.name, tuple(args))
+            hit = self.memo.get(key)
+            if hit is not None:
+                return hit[0]
+            t0, n0 = len(self.path.taken), len(self.path.nondet)
+            res = self.call_body(fn, args, binds)
+            if len(self.path.taken) == t0 and len(self.path.nondet) == n0:
+                self.memo[key] = (res,)
+            return res
+        return self.call_body(fn, args, binds)
+
+    def call_body(self, fn, args, binds=()):
         if not fn.decoded:
             self.decode(fn)
         if self.record_funcs:
